@@ -541,6 +541,51 @@ def r6(F, R, P):
     R.floor("C11-R6", 2)
 
 
+def r8(F, R):
+    """Progress counters are functions of the draws reported to them."""
+    R.rule("C11-R8", "ChainProgress::update decides whether a draw counts as a (post-warmup) divergence from the Progress value of that very draw: every condition "
+                     "guarding a write of a counter reads only the `stats` parameter, not the flags remembered from the previous draw")
+    for b in F.inherent_methods("ChainProgress", "update"):
+        site = "%s @%s" % (b.path, b.loc())
+        spar = [i for i in range(2, b.arg_count + 1) if "Progress" in (b.local_ty(i) or "")]
+        n = 0
+        bad = []
+        for bi, blk in enumerate(b.blocks):
+            t = blk["term"]
+            if blk["cleanup"] or t["k"] != "switch":
+                continue
+            # does this switch guard a store into self?
+            guarded = False
+            for x in range(len(b.blocks)):
+                if any(a == bi for (a, _s) in b.control_deps_trans(x)):
+                    if any(st["k"] == "assign" and st["pl"]["l"] == 1 and st["pl"]["p"] for st in b.blocks[x]["stmts"]) or \
+                       (b.blocks[x]["term"]["k"] == "call" and any(a_["k"] in ("copy", "move") and K.root_local(b, a_) == 1 for a_ in b.blocks[x]["term"]["args"][:1])):
+                        guarded = True
+            if not guarded:
+                continue
+            n += 1
+            selfreads = set()
+            for nd in vt_walk(b.value(t["discr"])):
+                if nd[0] == "field":
+                    root = nd[1]
+                    while root[0] in ("deref", "ref", "field"):
+                        root = root[1]
+                    if root[0] == "arg" and root[1] == 1:
+                        selfreads.add(str(nd[2]))
+            selfreads = sorted(selfreads)
+            if selfreads:
+                bad.append("condition at %s reads self.%s" % (loc(t.get("span")), ", self.".join(selfreads)))
+        key = b.path + ":conditions"
+        if bad:
+            R.bad("C11-R8", key, site, "; ".join(bad) + ": the counters lag one draw behind the trace at a phase boundary")
+        elif n:
+            R.ok("C11-R8", key, site, "%d guarded counter updates, all decided by the reported draw" % n)
+        else:
+            R.ok("C11-R8", key, site, "no conditional counter update")
+    R.floor("C11-R8", 1)
+
+
+
 def run(F, R, config=None):
     P = K.positive_facts()
     r6(F, R, P)
@@ -549,6 +594,11 @@ def run(F, R, config=None):
         r3(F, R)
         r4(F, R)
         r5(F, R)
+        r8(F, R)
+        # a Resume that can be lost leaves a chain paused for ever: the run never terminates (C12-R6 analysis of the command channel)
+        from . import c12
+        K.borrow_rule(R, lambda sub: c12.r6(F, sub), "C11-R7", "no control command for a live chain can be dropped: unbounded mpsc channel, `send` (C12-R6 analysis); a lost Resume "
+                      "blocks its chain in recv() for ever while resume() reported success", only_rules={"C12-R6"})
     else:
         R.not_evaluated.append("C11-R3/R4/R5: feature `parallel` off in this configuration")
     R.assume("std::sync::mpsc: recv blocks until a message or disconnection; dropping the last Sender disconnects; sync_channel(0) send is a rendezvous")
@@ -556,6 +606,6 @@ def run(F, R, config=None):
     R.assume("user callbacks (ProgressCallback) and Model/Math implementations return")
 
 
-FEATURE_RULES = {"C11-R3": "parallel", "C11-R4": "parallel", "C11-R5": "parallel"}
+FEATURE_RULES = {"C11-R3": "parallel", "C11-R4": "parallel", "C11-R5": "parallel", "C11-R7": "parallel", "C11-R8": "parallel"}
 CONFIGS = ["all", "default", "zarr", "ndarray"]
 SELFTEST = True
